@@ -263,3 +263,48 @@ func Harness_C08_Twin() {
 	rec, _ := serve(h, "GET", "/things/k", map[string]string{restli.MethodHeader: "get"}, nil)
 	verif.Assert(rec.status == 200, "twin: some outcome is a failure")
 }
+
+// Harness_C08_Sequence: what a request reports does not depend on the request
+// served before it by the same handler: a solver-chosen first request (success
+// with another default status, overridden status, error response, plain
+// error, unknown resource) is followed by a successful one whose status must
+// be its own default. sync.Pool hands back what was put into it, so state kept
+// in pooled per-request objects would show.
+func Harness_C08_Sequence(second int) {
+	first := verif.Choose(len(c08Reqs))
+	firstOutcome := verif.Choose(5)
+	m := &mockThings{item: &vt.Item{Name: "x"}}
+	phase := 0
+	m.outcomeCtx = func(ctx *restli.RequestContext, method string) error {
+		if phase != 0 {
+			return nil
+		}
+		switch firstOutcome {
+		case 1:
+			ctx.ResponseStatus = 299
+		case 2:
+			st := int32(409)
+			return &common.ErrorResponse{Status: &st}
+		case 3:
+			return errPlain
+		}
+		return nil
+	}
+	verif.PoolReuse(true)
+	h := newServer(m)
+	rq := c08Reqs[first]
+	target := rq.target
+	if firstOutcome == 4 {
+		target = "/nothing-here"
+	}
+	_, _ = serve(h, rq.verb, target, map[string]string{restli.MethodHeader: rq.header}, []byte(rq.body))
+	phase = 1
+	m.calls = nil
+	rq2 := c08Reqs[second]
+	rec, _ := serve(h, rq2.verb, rq2.target, map[string]string{restli.MethodHeader: rq2.header}, []byte(rq2.body))
+	verif.PoolReuse(false)
+	verif.Assert(len(m.calls) == 1 && m.calls[0].method == rq2.mockMethod, "the second request did not reach its method")
+	verif.Assert(rec.status == rq2.defaultStatus, "the status of a successful request depends on the request served before it: got "+http.StatusText(rec.status)+" want "+http.StatusText(rq2.defaultStatus))
+	verif.Assert(strings.ToLower(rec.header.Get(restli.ErrorResponseHeader)) != "true", "error header on a successful request after another request")
+	verif.Cover("sequence")
+}
